@@ -44,6 +44,10 @@ type C11Case struct {
 	Options  []Opts    `json:"options,omitempty"`
 	Clients  [][]C11Op `json:"clients"`
 	Schedule []uint16  `json:"schedule"`
+	// Prologue (cache systems): operations executed one after the other before the clients start, e.g. a few
+	// stores followed by a clock step past the lifetime, so that the concurrent phase begins with expired,
+	// not yet swept entries. They are part of the checked history.
+	Prologue []C11Op `json:"prologue,omitempty"`
 }
 
 func genC11(rt *rapid.T) C11Case {
@@ -55,6 +59,17 @@ func genC11(rt *rapid.T) C11Case {
 		c.TTL = rapid.SampledFrom([]int64{0, 0, int64(10 * time.Second)}).Draw(rt, "ttl")
 		nkeys := rapid.IntRange(1, 4).Draw(rt, "nkeys")
 		kinds := []string{"put", "put", "put", "get", "get", "get", "delete", "size", "stats", "keys", "sweep", "clear", "advance"}
+		// swarm: most cases use the whole operation mix, some a narrow one over one or two keys, which makes
+		// particular interactions (sweep against re-store of an expired key; delete/clear against store) dense
+		switch rapid.IntRange(0, 3).Draw(rt, "mix") {
+		case 0:
+			kinds = []string{"get", "put", "put", "sweep", "sweep", "size", "get"}
+			nkeys = rapid.IntRange(1, 2).Draw(rt, "nkeys2")
+			c.TTL = int64(10 * time.Second)
+		case 1:
+			kinds = []string{"put", "put", "delete", "get", "clear", "size", "keys", "stats"}
+			nkeys = rapid.IntRange(1, 2).Draw(rt, "nkeys2")
+		}
 		opGen := rapid.Custom(func(rt *rapid.T) C11Op {
 			op := C11Op{Kind: rapid.SampledFrom(kinds).Draw(rt, "kind")}
 			switch op.Kind {
@@ -66,6 +81,14 @@ func genC11(rt *rapid.T) C11Case {
 			return op
 		})
 		val := 0
+		if c.TTL > 0 && rapid.IntRange(0, 3).Draw(rt, "prologue") > 0 {
+			n := rapid.IntRange(1, nkeys).Draw(rt, "preput")
+			for k := 0; k < n; k++ {
+				val++
+				c.Prologue = append(c.Prologue, C11Op{Kind: "put", Key: k, Val: val})
+			}
+			c.Prologue = append(c.Prologue, C11Op{Kind: "advance", Adv: int64(11 * time.Second)})
+		}
 		for i := 0; i < nc; i++ {
 			ops := rapid.SliceOfN(opGen, 1, tierN(6, 9)).Draw(rt, "client")
 			for j := range ops {
@@ -390,6 +413,7 @@ func runC11(c C11Case) *Outcome {
 		}
 		return o
 	}
+	var prologueRec *c11ClientRec
 	recs := make([]*c11ClientRec, len(c.Clients))
 	clients := make([]func(), len(c.Clients))
 	var expect map[[3]int][]Res
@@ -404,6 +428,20 @@ func runC11(c C11Case) *Outcome {
 			sut = &viaSearchCache{sc: cache.NewSearchCache(c.Capacity, time.Duration(c.TTL))}
 		}
 		soft := c.System == "searchcache"
+		// prologue: sequential, stamped before every concurrent operation
+		pre := &c11ClientRec{}
+		for j, op := range c.Prologue {
+			h := c11HistOp{In: lruIn{Op: op.Kind, Key: op.Key, Val: op.Val, Adv: op.Adv, Soft: soft, CallNow: simtime.NowNS()}, Call: int64(-4*(len(c.Prologue)-j) - 2)}
+			switch op.Kind {
+			case "put":
+				sut.put(op.Key, op.Val)
+			case "advance":
+				simtime.Advance(time.Duration(op.Adv))
+			}
+			h.Ret = h.Call + 1
+			pre.hist = append(pre.hist, h)
+		}
+		prologueRec = pre
 		for i := range c.Clients {
 			r := &c11ClientRec{}
 			recs[i] = r
@@ -570,6 +608,11 @@ func runC11(c C11Case) *Outcome {
 
 	if c.System == "lru" || c.System == "searchcache" {
 		var ops []porcupine.Operation
+		if prologueRec != nil {
+			for _, h := range prologueRec.hist {
+				ops = append(ops, porcupine.Operation{ClientId: len(recs), Input: h.In, Output: h.Out, Call: h.Call, Return: h.Ret})
+			}
+		}
 		for ci, r := range recs {
 			for _, h := range r.hist {
 				ops = append(ops, porcupine.Operation{ClientId: ci, Input: h.In, Output: h.Out, Call: h.Call, Return: h.Ret})
@@ -622,7 +665,15 @@ func runC11(c C11Case) *Outcome {
 	}
 	o.Probes["c11.concurrent_searches"] = nsearch
 	// nothing wrong may be left in the cache
-	for k, want := range expect {
+	var eks [][3]int
+	for k := range expect {
+		eks = append(eks, k)
+	}
+	sort.Slice(eks, func(i, j int) bool {
+		return eks[i][0]*100+eks[i][1]*10+eks[i][2] < eks[j][0]*100+eks[j][1]*10+eks[j][2]
+	})
+	for _, k := range eks {
+		want := expect[k]
 		eo := c.Options[k[1]]
 		if k[2] == 0 {
 			eo = Opts{Limit: eo.Limit}
